@@ -52,3 +52,109 @@ Print Assumptions C13_is_utf8_sound.
 Example C13_guard_inhabited :
   forallb scalar [104; 20013; 128512; 33] = true /\ existsb is_two_byte [104; 20013; 128512; 33] = false.
 Proof. split; vm_compute; reflexivity. Qed.
+
+(* ================================================================================================================
+   Comment attachment and clean-up (Model/Comments.v, Spec/CommentSpec.v; proofs in Proofs/Comments*.v)
+   ================================================================================================================ *)
+From Coq Require Import ZArith.
+From LH Require Import Base.Res Model.Lexer Model.Ast Model.LuaFront Model.Comments Spec.CommentSpec
+  Proofs.CommentsCleanup Proofs.CommentsGap Proofs.CommentsAttach.
+
+(* Full statement of the attachment sentence, from file BYTES, for EVERY file: the comment the server attaches to line L
+   (GetLineComment on the map the lexer filled while the parser consumed the file) is the trailing comment recorded for L
+   if its text is non-empty, else the block ending on line L-1, lines joined by "\n", bytes unchanged.
+   It is REFUTED as stated (C13_leading_empty_refuted); proved below are
+   (1) C13_gap_entries: what one gap records (all structured gaps of white space, LF/CRLF breaks, `--text` comments),
+   (2) C13_comment_attach / _partial: the lookup, under the boolean guard attach_guard (no key shared by two entries,
+       no block of >= 2 lines starting with an empty line), (3) the clean-up characterisations.
+   Missing for a proof of the full sentence on a guarded class of BYTES: gaps with `--[[ ]]` comments, lone CR / LFCR
+   breaks or `--[x` comments (outside gap_ok), and a proof that entries of DIFFERENT gaps of one file never share a
+   key (today part of attach_guard, which is evaluated on the file's own map). *)
+Definition C13_comment_attach_full : Prop :=
+  forall (gbk_runes : list N -> Z) (classify : list N -> numcls) bs es,
+    comment_writes gbk_runes classify bs = Ok (Some es) ->
+    forall L, doc_comment gbk_runes classify bs L = Ok (Some (spec_attach es L)).
+
+(* (1) one gap: for ALL structured gaps (indentation, optional `--text`, LF / CRLF line breaks) followed by any token
+   start, skipWhiteSpaces records exactly the described entries: a trailing entry for a comment on the line the previous
+   token ends on, and one entry per maximal run of consecutive comment lines, keyed by its last line. *)
+Theorem C13_gap_entries : forall p2 p1 s g tail,
+  chunk s = render_gap g ++ tail -> gap_ok g tail = true -> (pline p1 <= line s)%Z ->
+  exists s', skip_ws p2 p1 s = (s', spec_entries (pline p1) (line s) (pos s - lsp s)%Z g, [])
+             /\ chunk s' = tail /\ line s' = (line s + Z.of_nat (length (g_rest g)))%Z.
+Proof. exact skip_ws_gap. Qed.
+Print Assumptions C13_gap_entries.
+
+(* (2) the lookup: for ALL comment maps without key collisions and without a block that starts with an empty line,
+   GetLineComment = the trailing comment stored for the line if its text is non-empty, else the block ending on the
+   line above, lines joined by "\n", bytes unchanged. *)
+Theorem C13_comment_attach : forall es, attach_guard es = true ->
+  forall L, get_line_comment es L = spec_attach es L.
+Proof. exact attach_lookup. Qed.
+Print Assumptions C13_comment_attach.
+
+(* the same for a file, from its bytes *)
+Theorem C13_comment_attach_partial :
+  forall (gbk_runes : list N -> Z) (classify : list N -> numcls) bs es,
+    comment_writes gbk_runes classify bs = Ok (Some es) -> attach_guard es = true ->
+    forall L, doc_comment gbk_runes classify bs L = Ok (Some (spec_attach es L)).
+Proof. exact doc_comment_attach. Qed.
+Print Assumptions C13_comment_attach_partial.
+
+(* non-vacuity of both guards: a gap with a trailing comment, a two-line block, a blank line and a one-line block;
+   a program with leading / trailing / separated comments *)
+Example C13_gap_guard_inhabited :
+  let g := mkGap (mkGl [32] (Some [32; 116]))
+                 [(NlLF, mkGl [] (Some [32; 97])); (NlCRLF, mkGl [32; 32] (Some [32; 98])); (NlLF, mkGl [] None);
+                  (NlLF, mkGl [] (Some [32; 99])); (NlLF, mkGl [9] None)] in
+  gap_ok g [120] = true /\ length (spec_entries 3 3 11 g) = 3%nat.
+Proof. split; vm_compute; reflexivity. Qed.
+
+(* "-- a\n-- b\nlocal x = 1 -- t\n\n-- s\n\nlocal y = 2\n" *)
+Definition C13_prog : list N :=
+  [45;45;32;97;10; 45;45;32;98;10; 108;111;99;97;108;32;120;32;61;32;49;32;45;45;32;116;10; 10;
+   45;45;32;115;10; 10; 108;111;99;97;108;32;121;32;61;32;50;10].
+Example C13_attach_guard_inhabited :
+  exists es, comment_writes (fun _ => 0%Z) classify_tok C13_prog = Ok (Some es) /\ attach_guard es = true /\
+             spec_attach es 3 = [32; 116] /\ spec_attach es 7 = [] /\ length es = 3%nat.
+Proof. eexists. split; [vm_compute; reflexivity|]. split; [vm_compute; reflexivity|]. split; [|split]; vm_compute; reflexivity. Qed.
+
+(* refutation of the full statement on the faithful model: a block whose first line is an empty `--` loses that line
+   ("--\n-- text\nlocal a = 1": the server shows " text", the block is "\n text") *)
+Definition C13_prog_empty_first : list N :=
+  [45;45;10; 45;45;32;116;101;120;116;10; 108;111;99;97;108;32;97;32;61;32;49].
+Theorem C13_leading_empty_refuted : ~ C13_comment_attach_full.
+Proof.
+  intros H.
+  assert (Hw : comment_writes (fun _ => 0%Z) classify_tok C13_prog_empty_first
+               = Ok (Some [(2%Z, mkCinfo [mkCline [] 1 2; mkCline [32;116;101;120;116] 2 2] true true)])) by (vm_compute; reflexivity).
+  specialize (H (fun _ => 0%Z) classify_tok _ _ Hw 3%Z). vm_compute in H. discriminate H.
+Qed.
+Print Assumptions C13_leading_empty_refuted.
+
+(* (3) clean-up: what the two clean-up functions remove in front of a line, and nothing else *)
+Theorem C13_cleanup : forall l,
+  exists p sp, l = p ++ sp ++ final_line l /\ final_decoration p /\ all_spaces sp = true /\ no_lead_space (final_line l) = true.
+Proof. exact final_line_char. Qed.
+Print Assumptions C13_cleanup.
+
+Theorem C13_cleanup_text_untouched : forall c l, c <> 45 -> c <> 42 -> c <> 32 -> final_line (c :: l) = c :: l.
+Proof. exact final_line_id. Qed.
+Print Assumptions C13_cleanup_text_untouched.
+
+Theorem C13_cleanup_lines : forall s, s <> [] ->
+  final_comment s = join_nl (drop_last_empty (map final_line (split_nl s))).
+Proof. exact final_comment_char. Qed.
+Print Assumptions C13_cleanup_lines.
+
+Theorem C13_hover_cleanup : forall l,
+  exists s1 p s2, l = s1 ++ p ++ s2 ++ hover_line l /\ all_spaces s1 = true /\ hover_decoration p /\ all_spaces s2 = true
+                  /\ no_lead_space (hover_line l) = true.
+Proof. exact hover_line_char. Qed.
+Print Assumptions C13_hover_cleanup.
+
+Theorem C13_hover_cleanup_lines : forall s, s <> [] ->
+  forallb (fun l => negb (is_annot_line (hover_line l))) (split_nl s) = true ->
+  get_str_comment s = flat_map (fun l => s_br ++ hover_line l) (split_nl s).
+Proof. exact get_str_comment_plain. Qed.
+Print Assumptions C13_hover_cleanup_lines.
